@@ -10,3 +10,104 @@ pub fn to_bits(x: &d128) -> u128 {
 
     ((x.w[1] as u128) << 64) | (x.w[0] as u128)
 }
+
+// ---------------------------------------------------------------------------------------------------
+// Constant-table dump: one line per table row, `NAME <row index> <v0> <v1> ...`.
+// Unsigned integers are printed in hexadecimal with a `0x` prefix (multi-word integers as ONE number,
+// w[0] least significant, exactly as the table literals are written), i32 in signed decimal, char as its
+// code point, &str as its bytes, DEC_DIGITS as `digits threshold(hi<<64|lo) digits1`; nested arrays are
+// flattened into the row.
+// ---------------------------------------------------------------------------------------------------
+
+/// How one table element is printed (a leading blank, then the value(s)).
+pub(crate) trait VDump {
+    fn vd(&self, out: &mut dyn std::io::Write);
+}
+
+impl VDump for u8   { fn vd(&self, out: &mut dyn std::io::Write) { write!(out, " {:#x}", self).unwrap(); } }
+impl VDump for u32  { fn vd(&self, out: &mut dyn std::io::Write) { write!(out, " {:#x}", self).unwrap(); } }
+impl VDump for u64  { fn vd(&self, out: &mut dyn std::io::Write) { write!(out, " {:#x}", self).unwrap(); } }
+impl VDump for i32  { fn vd(&self, out: &mut dyn std::io::Write) { write!(out, " {}", self).unwrap(); } }
+impl VDump for char { fn vd(&self, out: &mut dyn std::io::Write) { write!(out, " {}", *self as u32).unwrap(); } }
+impl VDump for &str { fn vd(&self, out: &mut dyn std::io::Write) { for b in self.bytes() { write!(out, " {}", b).unwrap(); } } }
+
+impl VDump for d128 {
+    fn vd(&self, out: &mut dyn std::io::Write) { write!(out, " 0x{:x}{:016x}", self.w[1], self.w[0]).unwrap(); }
+}
+
+impl VDump for crate::bid_internal::BID_UINT192 {
+    fn vd(&self, out: &mut dyn std::io::Write) { write!(out, " 0x{:x}{:016x}{:016x}", self.w[2], self.w[1], self.w[0]).unwrap(); }
+}
+
+impl VDump for crate::bid_internal::BID_UINT256 {
+    fn vd(&self, out: &mut dyn std::io::Write) { write!(out, " 0x{:x}{:016x}{:016x}{:016x}", self.w[3], self.w[2], self.w[1], self.w[0]).unwrap(); }
+}
+
+impl VDump for crate::bid_internal::DEC_DIGITS {
+    fn vd(&self, out: &mut dyn std::io::Write) {
+        write!(out, " {} 0x{:x}{:016x} {}", self.digits, self.threshold_hi, self.threshold_lo, self.digits1).unwrap();
+    }
+}
+
+impl<T: VDump, const N: usize> VDump for [T; N] {
+    fn vd(&self, out: &mut dyn std::io::Write) { for x in self.iter() { x.vd(out); } }
+}
+
+/// Prints every row of one table.
+pub(crate) fn dump_rows<T: VDump>(out: &mut dyn std::io::Write, name: &str, table: &[T]) {
+    for (i, row) in table.iter().enumerate() {
+        write!(out, "{} {}", name, i).unwrap();
+        row.vd(out);
+        writeln!(out).unwrap();
+    }
+}
+
+macro_rules! verif_dump {
+    ($out:expr, $($m:ident :: $t:ident),* $(,)?) => { $( dump_rows($out, stringify!($t), &crate::$m::$t[..]); )* };
+}
+
+macro_rules! verif_dump_scalar {
+    ($out:expr, $($m:ident :: $t:ident),* $(,)?) => { $( dump_rows($out, stringify!($t), &[crate::$m::$t][..]); )* };
+}
+
+/// Prints every constant table of the crate (as compiled) to `out`.
+pub fn dump_tables(out: &mut dyn std::io::Write) {
+    // (the tables of bid128.rs / bid_decimal_data.rs that sit inside a block comment -- BID_TEN2MK64, the
+    // ...128M/192M/256M families, BID_TEN2M3K64/128 and their shifts, BID_ROUND_CONST_TABLE -- are not compiled
+    // and therefore not listed)
+    verif_dump!(out,
+        bid128::BID_NR_DIGITS,
+        bid128::BID_MIDPOINT64, bid128::BID_MIDPOINT128, bid128::BID_MIDPOINT192, bid128::BID_MIDPOINT256,
+        bid128::BID_TEN2K64, bid128::BID_TEN2K128, bid128::BID_TEN2K256,
+        bid128::BID_TEN2MK128, bid128::BID_SHIFTRIGHT128, bid128::BID_MASKHIGH128, bid128::BID_ONEHALF128,
+        bid128::BID_TEN2MK128TRUNC,
+        bid128::BID_CHAR_TABLE2, bid128::BID_CHAR_TABLE3,
+        bid128::BID_KX64, bid128::BID_EX64M64, bid128::BID_HALF64, bid128::BID_MASK64, bid128::BID_TEN2MXTRUNC64,
+        bid128::BID_KX128, bid128::BID_EX128M128, bid128::BID_HALF128, bid128::BID_MASK128, bid128::BID_TEN2MXTRUNC128,
+        bid128::BID_KX192, bid128::BID_EX192M192, bid128::BID_HALF192, bid128::BID_MASK192, bid128::BID_TEN2MXTRUNC192,
+        bid128::BID_KX256, bid128::BID_EX256M256, bid128::BID_HALF256, bid128::BID_MASK256, bid128::BID_TEN2MXTRUNC256,
+        bid128_2_str_tables::BID_MIDI_TBL, bid128_2_str_tables::MOD10_18_TBL,
+        bid_b2d::BID_D2B, bid_b2d::BID_B2D,
+        bid_convert_data::BID_PACKED_10000_ZEROS, bid_convert_data::BID_FACTORS,
+        bid_decimal_data::BID_ROUND_CONST_TABLE_128,
+        bid_decimal_data::BID_RECIPROCALS10_128, bid_decimal_data::BID_POWER10_TABLE_128,
+        bid_decimal_data::BID_RECIP_SCALE, bid_decimal_data::BID_ESTIMATE_DECIMAL_DIGITS,
+        bid_decimal_data::BID_POWER10_INDEX_BINEXP_128, bid_decimal_data::BID_SHORT_RECIP_SCALE,
+        bid_decimal_data::BID_RECIPROCALS10_64,
+    );
+    verif_dump_scalar!(out,
+        bid128_2_str_tables::BID_TWOTO60_M_10TO18, bid128_2_str_tables::BID_TWOTO60,
+        bid128_2_str_tables::BID_INV_TENTO9, bid128_2_str_tables::BID_TWOTO30_M_10TO9,
+        bid128_2_str_tables::BID_TENTO9, bid128_2_str_tables::BID_TENTO6, bid128_2_str_tables::BID_TENTO3,
+    );
+    // [[[u32; 2]; 128]; 5]: one line per (i, j), index written `i.j`
+    for (i, plane) in crate::bid_convert_data::BID_CONVERT_TABLE.iter().enumerate() {
+        for (j, row) in plane.iter().enumerate() {
+            write!(out, "BID_CONVERT_TABLE {}.{}", i, j).unwrap();
+            row.vd(out);
+            writeln!(out).unwrap();
+        }
+    }
+    // the module-private tables of bid_binarydecimal.rs
+    crate::bid_binarydecimal::verif_tables(out);
+}
